@@ -1033,6 +1033,23 @@ fn wad_pow_check(e: &Env, lib: &Address, x: i128, n: u32, t: &mut Tally) -> Resu
         t.add("wad.pow.exp1");
         ensure!(c == Some(x), "C12/wad.checked_pow/exp1-not-x", "x^1 = {:?}; {}", c, input());
     }
+    // an INTEGER base never meets a truncation: (k * 10^18)^n in fixed point is exactly k^n * 10^18 whatever the order of
+    // the multiplications (the documented example: 2^10 = 1024), and when that does not fit there is no value to return
+    if n >= 2 && x % WAD_SCALE == 0 && n <= 200 {
+        let k = big::b(x / WAD_SCALE);
+        let mut exact = wad_scale();
+        for _ in 0..n {
+            exact *= &k;
+            if exact.bits() > 300 {
+                break;
+            }
+        }
+        t.add("wad.pow.integer_base");
+        match exact.to_i128() {
+            Some(w) => ensure!(c == Some(w), "C12/wad.checked_pow/integer-base-wrong-value", "({})^{n} = {:?}, exact value {w}; {}", x / WAD_SCALE, c, input()),
+            None => ensure!(c.is_none(), "C12/wad.checked_pow/integer-base-value-but-no-fit", "({})^{n} = {:?} although the exact value does not fit; {}", x / WAD_SCALE, c, input()),
+        }
+    }
     // counted only (DESIGN §7: the value of pow for n >= 2 depends on the truncation points)
     if n >= 2 {
         if pow_transcription(x, n) == c {
